@@ -286,6 +286,13 @@ func checkC03(c *Check, p *Program) {
 		}
 		bo, ok := st.Val.(*ssa.BinOp)
 		isInc := ok && bo.Op == token.ADD && isLoadOf(bo.X, a.seqNumber)
+		if ok && bo.Op == token.ADD && !isInc {
+			// res.SeqNumber + 1 behind res.SeqNumber == conn.seqNumber is the same number
+			seqResF := p.Field("knx/knxnet", "TunnelRes", "SeqNumber")
+			if isLoadOf(bo.X, seqResF) && anyFact(facts, func(f Cmp) bool { return cmpIsFieldEq(f, seqResF, a.seqNumber) }) {
+				isInc = true
+			}
+		}
 		if isInc {
 			k, okk := constInt(bo.Y)
 			isInc = okk && k == 1
